@@ -200,7 +200,7 @@ func c11DumpQuiet() bool {
 // external stimulus (a timer firing or the driver acting). Fast path: the Go 1.26 scheduler
 // metrics (taken under the scheduler lock); the verdict is always confirmed by a stop-the-world dump.
 func c11Quiesce() bool {
-	deadline := time.Now().Add(3 * time.Second)
+	deadline := time.Now().Add(10 * time.Second)
 	for i := 0; ; i++ {
 		runtime.Gosched()
 		quiet := true
@@ -476,7 +476,41 @@ func (x *c11Exec) waitTick() {
 	x.closeWindow("w")
 }
 
+// c11Run runs one case. A case with a custom zone order on a single replication set is run as TWO
+// consecutive reads with the same ZoneSorter, which returns a slice it keeps (a fixed preference list
+// owned by the caller): the library must not write into it (token Z! after a read if it did), and the
+// second read must behave like the first. The two traces are separated by the token N.
 func c11Run(cs *c11Case) string {
+	if cs.sorter == nil || (cs.kind != 'q' && cs.kind != 'w') {
+		return c11RunOnce(cs, nil)
+	}
+	present := map[int]bool{}
+	for _, z := range cs.sets[0].zones {
+		present[z] = true
+	}
+	var kept []string
+	for _, z := range cs.sorter {
+		if present[z] {
+			kept = append(kept, "zone-"+itoa(z))
+		}
+	}
+	orig := append([]string(nil), kept...)
+	mutated := func() string {
+		for i := range orig {
+			if kept[i] != orig[i] {
+				return " Z!"
+			}
+		}
+		return ""
+	}
+	t1 := c11RunOnce(cs, kept)
+	t1 += mutated()
+	t2 := c11RunOnce(cs, kept)
+	t2 += mutated()
+	return t1 + " N " + t2
+}
+
+func c11RunOnce(cs *c11Case, kept []string) string {
 	n := cs.n()
 	x := &c11Exec{cs: cs, ctxs: make([]context.Context, n), cancels: make([]context.CancelCauseFunc, n), gates: make([]chan struct{}, n),
 		nstart: make([]int, n), seen: make([]bool, n), released: make([]bool, n), doneCall: make([]bool, n)}
@@ -525,7 +559,9 @@ func c11Run(cs *c11Case) string {
 		// whose awaitStart failed (the predicate is applied to those as well)
 		cfg.IsTerminalError = func(err error) bool { return errors.Is(err, context.Canceled) }
 	}
-	if cs.sorter != nil {
+	if kept != nil {
+		cfg.ZoneSorter = func([]string) []string { return kept } // the caller's own, retained list
+	} else if cs.sorter != nil {
 		order := cs.sorter
 		cfg.ZoneSorter = func(zones []string) []string {
 			pos := map[string]int{}
@@ -1121,12 +1157,18 @@ func runC11(e *env) {
 	}
 	if shard >= 0 {
 		runtime.GOMAXPROCS(4)
+		e.progSeq = shard * 10000000 // the shards append to one progress log: keep their sequence numbers apart
 		for i, c := range cases {
 			if i%nshards != shard {
 				continue
 			}
 			cmd, opts, sets, script := c.fields()
-			e.emit(cmd, opts, sets, script, c11Run(c))
+			// crash attribution: a panic in a library goroutine takes this process down; the driver then
+			// reports the case that was in flight as the failing input
+			done := e.begin(strings.Join([]string{cmd, opts, sets, script}, "\t"))
+			tr := c11Run(c)
+			done()
+			e.emit(cmd, opts, sets, script, tr)
 		}
 		return
 	}
@@ -1150,11 +1192,23 @@ func runC11(e *env) {
 		}(k)
 	}
 	wg.Wait()
+	failed := false
 	for k := range outs {
 		if errs[k] != nil {
 			fmt.Fprintln(os.Stderr, "C11 shard", k, "failed:", errs[k])
-			os.Exit(1)
+			failed = true
 		}
+	}
+	if failed {
+		// keep what the other shards produced (order does not matter), then fail: the driver attributes the
+		// crash to the case that was in flight
+		for k := range outs {
+			if errs[k] == nil {
+				e.w.Write(outs[k])
+			}
+		}
+		e.w.Flush()
+		os.Exit(1)
 	}
 	// interleave the shard outputs back into case order
 	lines := make([][]string, nshards)
